@@ -128,6 +128,9 @@ class AffStub(om.ExplicitComponent):
             if a['method'] == 'fd':
                 kw.update(form=a['form'], step=a['step'], step_calc=a['step_calc'])
             self.declare_partials('*', '*', **kw)
+            if a.get('colored'):
+                self.declare_coloring(wrt='*', method=a['method'], num_full_jacs=2, tol=1e-20,
+                                      show_summary=False, show_sparsity=False)
             return
         q = s.get('quad')
         for o in s['outs']:
@@ -385,6 +388,11 @@ LN = {
     'lnbgs': lambda s: om.LinearBlockGS(),
     'lnbj': lambda s: om.LinearBlockJac(),
     'krylov': lambda s: om.ScipyKrylov(),
+    'krylov_csc': lambda s: om.ScipyKrylov(assemble_jac=True),
+    'krylov_csr': lambda s: om.ScipyKrylov(assemble_jac=True),
+    'krylov_dense': lambda s: om.ScipyKrylov(assemble_jac=True),
+    'lnbgs_csc': lambda s: om.LinearBlockGS(assemble_jac=True),
+    'lnbgs_csr': lambda s: om.LinearBlockGS(assemble_jac=True),
     'runonce': lambda s: om.LinearRunOnce(),
 }
 
@@ -450,12 +458,12 @@ def build(world, rt, name='w', tol=None, reorder=False, problem_kwargs=None):
             if s['nl'] in ('newton', 'broyden'):
                 nl.linesearch = None
         grp.linear_solver = ln = LN[s['ln']](s)
-        if s['ln'] in ('direct_csc', 'direct_dense', 'direct_csr'):
+        if '_' in s['ln']:
             grp.options['assembled_jac_type'] = s['ln'].split('_')[1]
-        if s['ln'] in ('lnbgs', 'lnbj', 'krylov'):
+        if s['ln'].split('_')[0] in ('lnbgs', 'lnbj', 'krylov'):
             ln.options['maxiter'] = 200
-            ln.options['atol'] = tol.get('ln_atol', 1e-12 if s['ln'] != 'krylov' else 1e-10)
-            ln.options['rtol'] = tol.get('ln_rtol', 1e-11 if s['ln'] != 'krylov' else 1e-8)
+            ln.options['atol'] = tol.get('ln_atol', 1e-12 if not s['ln'].startswith('krylov') else 1e-10)
+            ln.options['rtol'] = tol.get('ln_rtol', 1e-11 if not s['ln'].startswith('krylov') else 1e-8)
             # Linear block solvers measure their residual over the whole vector, including systems that
             # relevance pruning skips, so with irrelevant subsystems they report non-convergence although
             # the requested derivatives are exact (see DESIGN).  Convergence of linear solves is therefore
